@@ -52,3 +52,7 @@ Definition action_eqb (a b : action) : bool :=
 
 Definition is_shift (a : action) : bool := match a with Shift _ => true | _ => false end.
 Definition is_reduce (a : action) : bool := match a with Reduce _ => true | _ => false end.
+
+(* every cell holds at most one action *)
+Definition det_table (tb : table) : bool :=
+  forallb (fun st => forallb (fun ya => Nat.leb (length (snd ya)) 1) (st_actions st)) tb.
